@@ -93,8 +93,9 @@ def catalogue():
     # when things are re-used the TRANSFORM OBJECT is shared between them (same scales and offsets)
     for k in range(3):
         c = _copy(base); c["_transforms"] = {"var_scales": [2.0, 0.5, 1.0], "var_offsets": [0.1, 0.0, -0.2]}
-        c["linear_constraints"] = ({"coefficients": [[1.0, 1.0, 0.0]], "lower_bounds": [-INF], "upper_bounds": [0.2]} if k != 1 else
-                                   {"coefficients": [[8.0, -1.0, 0.5]], "lower_bounds": [-INF], "upper_bounds": [1.0]})
+        # (row scalings 3 and 7: not powers of two, so that a wrong one shows in the last bits)
+        c["linear_constraints"] = ({"coefficients": [[1.5, 1.0, 0.0]], "lower_bounds": [-INF], "upper_bounds": [0.2]} if k != 1 else
+                                   {"coefficients": [[3.5, -1.0, 0.5]], "lower_bounds": [-INF], "upper_bounds": [1.0]})
         c["optimizer"]["max_functions"] = 5
         out.append(c)
     return out
@@ -182,6 +183,10 @@ def run_once(cfg, seed, reuse, label, nest=False):
         for r in event.data["results"]:
             if isinstance(r, FunctionResults) and r.functions is not None:
                 h.update(r.functions.weighted_objective.tobytes())
+                ci = r.constraint_info          # the reported constraint differences are results as well
+                for name in ("bound_lower", "bound_upper", "linear_lower", "linear_upper", "nonlinear_lower", "nonlinear_upper"):
+                    arr = None if ci is None else getattr(ci, name)
+                    h.update(b"-" if arr is None else np.asarray(arr).tobytes())
             if isinstance(r, GradientResults) and r.gradients is not None:
                 h.update(r.gradients.weighted_objective.tobytes())
 
